@@ -34,7 +34,8 @@ QF_THOROUGH = [
 ] + [
     ('filters__quotientfilter.rs', 'c13_qf_insert_b2r1_f%d' % f, 'bounded(4 slots, 1-bit remainders; all 256 fingerprint sets x this fingerprint)') for f in range(8)
 ]
-QF_UNION_QUICK = [('filters__quotientfilter.rs', 'c06_qf_union_b1r1_a%d' % a, 'bounded(2 slots, 1-bit remainders; receiving set %d, every other set)' % a) for a in (3, 9)]
+QF_UNION_QUICK = [('filters__quotientfilter.rs', 'c06_qf_union_b1r1_a%d' % a, 'bounded(2 slots, 1-bit remainders; receiving set %d, every other set)' % a) for a in (3, 9)] + [
+    ('filters__quotientfilter.rs', 'c06_qf_union_b2r1_two_pending_runs_into_empty', 'bounded(4 slots; ONE concrete pair: empty receiver, other = full table whose cluster has two pending run quotients)')]
 QF_UNION_THOROUGH = [('filters__quotientfilter.rs', 'c06_qf_union_b2r1_two_pending_runs', 'bounded(4 slots: other = full table with two pending run quotients, every receiving subset)')] + [('filters__quotientfilter.rs', 'c06_qf_union_b1r1_a%d' % a, 'bounded(2 slots, 1-bit remainders; receiving set %d, every other set)' % a) for a in (0, 1, 2, 4, 5, 6, 8, 10, 12)] + [('filters__quotientfilter.rs', 'c06_qf_union_b1r2', 'bounded(2 slots, 2-bit remainders; all pairs of sets)'),
                      ('filters__quotientfilter.rs', 'c06_qf_union_b2r1', 'bounded(4 slots, 1-bit remainders; all pairs of sets)')]
 
